@@ -70,19 +70,8 @@ public:
     }
 
     ~XalanArrayAllocator()
-    {        
-        typename ListType::iterator iter = m_list.begin();
-
-        MemoryManager& theManager = m_list.getMemoryManager();
-
-        for( iter = m_list.begin(); iter != m_list.end(); ++iter)
-        {
-            if( (*iter).second != 0)
-            {
-                (*iter).second->VectorType::~VectorType();
-                theManager.deallocate((void*)(*iter).second);
-            }
-        }
+    {
+        destroyVectors();
     }
 
     /**
@@ -91,6 +80,10 @@ public:
     void
     clear()
     {
+        // The list holds pointers: the vectors must be destroyed
+        // here, or nothing will ever release them.
+        destroyVectors();
+
         m_list.clear();
 
         m_lastEntryFound = 0;
@@ -168,6 +161,23 @@ public:
 private:
 
     // Utility functions...
+    void
+    destroyVectors()
+    {
+        typename ListType::iterator iter = m_list.begin();
+
+        MemoryManager& theManager = m_list.getMemoryManager();
+
+        for( iter = m_list.begin(); iter != m_list.end(); ++iter)
+        {
+            if( (*iter).second != 0)
+            {
+                (*iter).second->VectorType::~VectorType();
+                theManager.deallocate((void*)(*iter).second);
+            }
+        }
+    }
+
     Type*
     createEntry(
             size_type   theBlockSize,
